@@ -70,6 +70,12 @@ def run(tier, seed):
         for k in (0, 1, 2):
             for n in (1, 2, 3, 4, 6):
                 ri.append((sp, dict(o, alloc_fault=[k, n])))
+    # a sub-project task that is worked by the parent's own people (auto_task=False), stopped while it holds them, checkpointed and continued
+    wsub = {"tasks": [{"name": "T0", "work": 1.0}, {"name": "S1", "work": 4.0, "sub": {"auto": False}}, {"name": "T2", "work": 1.0}], "links": [[0, 1, "FS"], [1, 2, "FS"]],
+            "teams": [{"name": "TM0", "targets": [0, 1, 2], "workers": [{"name": "W0", "skills": {"T0": 1.0, "S1": 1.0, "T2": 1.0}, "cost": 1.0}, {"name": "W1", "skills": {"S1": 1.0}, "cost": 1.0}]}]}
+    for k in (1, 2, 3):
+        for how in (True, "same", None):
+            ri.append((wsub, dict({"rule": "TSLACK", "max_time": 14, "resume_from": k}, **({"resume_via_json": how} if how else {}))))
     col.merge(stepcheck.explore(ri, MONS, 0, 0, seed=seed))
     lit = [(sp, {"rule": "TSLACK", "max_time": 20}) for sp in F.unsorted_absence_specs() + F.same_name_task_specs() + F.double_link_specs() + F.three_level_product_specs() + F.nested_running_specs() + F.nested_order_specs()]
     col.merge(stepcheck.explore(lit, MONS, 0, 0, seed=seed))
